@@ -19,7 +19,7 @@ open Fpdec.Model
 
 /-- the core function `rem(a, p, b, q)` for a non-zero divisor -/
 theorem remCore_spec (a : Int) (p : Nat) (b : Int) (q : Nat)
-    (ha : I128_MIN < a ∧ a ≤ I128_MAX) (hb : I128_MIN < b ∧ b ≤ I128_MAX) (hb0 : b ≠ 0) (hp : p ≤ 18) (hq : q ≤ 18) :
+    (ha : I128_MIN ≤ a ∧ a ≤ I128_MAX) (hb : I128_MIN ≤ b ∧ b ≤ I128_MAX) (hb0 : b ≠ 0) (hp : p ≤ 18) (hq : q ≤ 18) :
     Spec.allowedChecked
       (let m := max p q
        let A := a * (10 : Int) ^ (m - p)
@@ -27,7 +27,6 @@ theorem remCore_spec (a : Int) (p : Nat) (b : Int) (q : Nat)
        if p < q ∧ !Spec.fits A then Spec.Exp.valOrOvf (A.tmod B) m else Spec.Exp.val (A.tmod B) m)
       (outOptPair (remCore a p b q)) = true := by
   have _ := hb
-  have haMin : a ≠ I128_MIN := by omega
   unfold remCore
   dsimp only
   rcases Nat.lt_trichotomy p q with h | h | h
@@ -49,13 +48,13 @@ theorem remCore_spec (a : Int) (p : Nat) (b : Int) (q : Nat)
     · have hf' : fitsI128 (a * (10 : Int) ^ (q - p)) = false := by simpa using hf
       rw [checkedI128_none hf']
       dsimp only
-      rw [remI128_ok hb0 haMin, Outcome.bind_ok]
+      rw [wrappingRemI128_ok hb0, Outcome.bind_ok]
       rcases remLoop_spec b hb0 (q - p) a with hl | hl <;> rw [hl] <;>
         simp [hf', h, Spec.allowedChecked]
   · subst h
     have hc : compare p p = .eq := Nat.compare_eq_eq.2 rfl
     rw [hc]
-    simp [remI128_ok hb0 haMin, Spec.allowedChecked]
+    simp [wrappingRemI128_ok hb0, Spec.allowedChecked]
   · have hc : compare p q = .gt := Nat.compare_eq_gt.2 h
     have hm : max p q = p := by omega
     have hlt : ¬ p < q := by omega
@@ -65,7 +64,13 @@ theorem remCore_spec (a : Int) (p : Nat) (b : Int) (q : Nat)
     by_cases hf : fitsI128 (b * (10 : Int) ^ (p - q)) = true
     · rw [checkedI128_some hf]
       have hB : b * (10 : Int) ^ (p - q) ≠ 0 := Int.mul_ne_zero hb0 (Int.ne_of_gt (pow10_pos _))
-      simp [remI128_ok hB haMin, hlt, Spec.allowedChecked]
+      have hB1 : b * (10 : Int) ^ (p - q) ≠ -1 := by
+        have e : (10 : Int) ^ (p - q) = (10 : Int) ^ (p - q - 1) * 10 := by
+          rw [← Int.pow_succ]; congr 1; omega
+        rw [e, ← Int.mul_assoc]
+        generalize b * (10 : Int) ^ (p - q - 1) = k
+        omega
+      simp [remI128_ok' hB hB1, hlt, Spec.allowedChecked]
     · have hf' : fitsI128 (b * (10 : Int) ^ (p - q)) = false := by simpa using hf
       rw [checkedI128_none hf']
       have hself : a.tmod (b * (10 : Int) ^ (p - q)) = a := by
@@ -73,6 +78,11 @@ theorem remCore_spec (a : Int) (p : Nat) (b : Int) (q : Nat)
         have := fitsI128_iff (b * (10 : Int) ^ (p - q))
         rw [hf'] at this
         simp at this
+        -- the scaled divisor is a multiple of ten, so it is not `2^127` itself: `|B| > 2^127 ≥ |a|`
+        have e : (10 : Int) ^ (p - q) = (10 : Int) ^ (p - q - 1) * 10 := by
+          rw [← Int.pow_succ]; congr 1; omega
+        rw [e, ← Int.mul_assoc] at this ⊢
+        generalize b * (10 : Int) ^ (p - q - 1) = k at this ⊢
         unfold I128_MIN I128_MAX at *
         omega
       simp [hself, hlt, Spec.allowedChecked]
@@ -128,7 +138,7 @@ theorem remDecDec_spec (x y : Dec) (hx : Dom x) (hy : Dom y) (hy0 : y.coeff ≠ 
       by_cases hp : x.nfrac = 0 <;> simp [h1, hp, Spec.allowedChecked, Dec.ZERO]
     · rw [spec_rem_generic _ _ _ _ hy0 hx0 h1]
       simp only [Bool.false_eq_true, if_false, Outcome.bind_ok, h1, decide_false]
-      exact remCore_spec _ _ _ _ ⟨hx1, hx2⟩ ⟨hy1, hy2⟩ hy0 hx3 hy3
+      exact remCore_spec _ _ _ _ ⟨Int.le_of_lt hx1, hx2⟩ ⟨Int.le_of_lt hy1, hy2⟩ hy0 hx3 hy3
 
 theorem spec_rem_shape (a : Int) (p : Nat) (b : Int) (q : Nat) (hb0 : b ≠ 0) :
     Spec.rem a p b q ≠ .divzero ∧ Spec.rem a p b q ≠ .none ∧ Spec.rem a p b q ≠ .nfrac := by
@@ -166,7 +176,7 @@ theorem checked_rem_spec (x y : Dec) (hx : Dom x) (hy : Dom y) :
     exact remDecDec_spec x y hx hy hy0
 
 /-- Decimal % int: same as with `Decimal::from(i)` on the right (`i` any i128 value) -/
-theorem rem_dec_int_spec (x : Dec) (i : Int) (hx : Dom x) (hi : I128_MIN < i ∧ i ≤ I128_MAX) (hi0 : i ≠ 0) :
+theorem rem_dec_int_spec (x : Dec) (i : Int) (hx : Dom x) (hi : I128_MIN ≤ i ∧ i ≤ I128_MAX) (hi0 : i ≠ 0) :
     Spec.allowedChecked (Spec.rem x.coeff x.nfrac i 0) (outOptPair (remDecInt x i)) = true := by
   obtain ⟨hx1, hx2, hx3⟩ := hx
   unfold remDecInt
@@ -179,10 +189,10 @@ theorem rem_dec_int_spec (x : Dec) (i : Int) (hx : Dom x) (hi : I128_MIN < i ∧
       by_cases hp : x.nfrac = 0 <;> simp [h1, hp, Spec.allowedChecked, Dec.ZERO]
     · rw [spec_rem_generic _ _ _ _ hi0 hx0 (by simpa using h1)]
       simp only [Bool.false_eq_true, if_false, h1]
-      exact remCore_spec _ _ _ _ ⟨hx1, hx2⟩ hi hi0 hx3 (by omega)
+      exact remCore_spec _ _ _ _ ⟨Int.le_of_lt hx1, hx2⟩ hi hi0 hx3 (by omega)
 
 /-- int % Decimal: same as with `Decimal::from(i)` on the left -/
-theorem rem_int_dec_spec (i : Int) (y : Dec) (hy : Dom y) (hi : I128_MIN < i ∧ i ≤ I128_MAX) (hy0 : y.coeff ≠ 0) :
+theorem rem_int_dec_spec (i : Int) (y : Dec) (hy : Dom y) (hi : I128_MIN ≤ i ∧ i ≤ I128_MAX) (hy0 : y.coeff ≠ 0) :
     Spec.allowedChecked (Spec.rem i 0 y.coeff y.nfrac) (outOptPair (remIntDec i y)) = true := by
   obtain ⟨hy1, hy2, hy3⟩ := hy
   unfold remIntDec
@@ -194,7 +204,7 @@ theorem rem_int_dec_spec (i : Int) (y : Dec) (hy : Dom y) (hi : I128_MIN < i ∧
       simp [hi0, h1, Spec.allowedChecked, Dec.ZERO]
     · rw [spec_rem_generic _ _ _ _ hy0 hi0 h1]
       simp only [hi0, if_false, Outcome.bind_ok, h1, decide_false, Bool.false_eq_true]
-      exact remCore_spec _ _ _ _ hi ⟨hy1, hy2⟩ hy0 (by omega) hy3
+      exact remCore_spec _ _ _ _ hi ⟨Int.le_of_lt hy1, hy2⟩ hy0 (by omega) hy3
 
 /-- `tmod` is THE remainder of the statement: `A = B·t + r`, `|r| < |B|`, `r` zero or of the sign of `A` — and it is unique -/
 theorem tmod_characterisation (A B r : Int) (hB : B ≠ 0) :
